@@ -361,6 +361,58 @@ theorem hdr_set_frame_spec (f : HField) (c : Cls) (enc : Enc) (h : Bytes) (v : N
   rw [slice_wr_other _ _ _ _ _ (by rw [encodeInt_length, hf]; omega)
     (by rw [encodeInt_length, hf, hf']; omega)]
 
+theorem hfield_name_inj {f g : HField} (h : f.name = g.name) : f = g := by
+  cases f <;> cases g <;> first | rfl | (revert h; decide)
+
+/-- the bytes of the field a setter wrote -/
+theorem set_slice_same (f : HField) (c : Cls) (enc : Enc) (h : Bytes) (v : Nat) (hl : ehdrSize c ≤ h.length) :
+    slice (f.set c enc h v) (Spec.field (Spec.ehdrL c) f.name).1 (Spec.field (Spec.ehdrL c) f.name).2 =
+      encodeInt enc (Spec.field (Spec.ehdrL c) f.name).2 v := by
+  rw [hdr_set_eq_wr]
+  obtain ⟨e, he, _, hf⟩ := field_of_valid (hfield_valid f c)
+  have := (ehdr_table_ok c).2 e he
+  rw [(sizes_eq c).1] at hl
+  have h1 := slice_wr_same h (encodeInt enc (Spec.field (Spec.ehdrL c) f.name).2 v)
+    (Spec.field (Spec.ehdrL c) f.name).1 (by rw [encodeInt_length, hf]; omega)
+  rw [encodeInt_length] at h1
+  exact h1
+
+/-- the bytes of any other field are untouched -/
+theorem set_slice_other (f : HField) (c : Cls) (enc : Enc) (h : Bytes) (v : Nat) (hl : ehdrSize c ≤ h.length)
+    (name : String) (hv : ValidName (Spec.ehdrL c) name) (hne : name ≠ f.name) :
+    slice (f.set c enc h v) (Spec.field (Spec.ehdrL c) name).1 (Spec.field (Spec.ehdrL c) name).2 =
+      slice h (Spec.field (Spec.ehdrL c) name).1 (Spec.field (Spec.ehdrL c) name).2 := by
+  obtain ⟨e, he, hen, hf⟩ := field_of_valid (hfield_valid f c)
+  obtain ⟨e', he', hen', hf'⟩ := field_of_valid hv
+  have hb := (ehdr_table_ok c).2 e he
+  have hd := (ehdr_table_ok c).1 e' he' e he (by rw [hen, hen']; exact hne)
+  rw [(sizes_eq c).1] at hl
+  rw [hdr_set_eq_wr]
+  exact slice_wr_other _ _ _ _ _ (by rw [encodeInt_length, hf]; omega) (by rw [encodeInt_length, hf, hf']; omega)
+
+/-- setting a field to the value it holds changes nothing -/
+theorem set_absorb (f : HField) (c : Cls) (enc : Enc) (h : Bytes) (v : Nat) (hl : ehdrSize c ≤ h.length)
+    (hs : slice h (Spec.field (Spec.ehdrL c) f.name).1 (Spec.field (Spec.ehdrL c) f.name).2 =
+      encodeInt enc (Spec.field (Spec.ehdrL c) f.name).2 v) : f.set c enc h v = h := by
+  rw [hdr_set_eq_wr]
+  obtain ⟨e, he, _, hf⟩ := field_of_valid (hfield_valid f c)
+  have := (ehdr_table_ok c).2 e he
+  rw [(sizes_eq c).1] at hl
+  apply wr_self
+  · rw [encodeInt_length, hf]; omega
+  · rw [encodeInt_length]; exact hs
+
+/-- the later of two calls of the same setter wins -/
+theorem set_set (f : HField) (c : Cls) (enc : Enc) (h : Bytes) (v w : Nat) (hl : ehdrSize c ≤ h.length) :
+    f.set c enc (f.set c enc h v) w = f.set c enc h w := by
+  rw [hdr_set_eq_wr f c enc (f.set c enc h v), hdr_set_eq_wr f c enc h v, hdr_set_eq_wr f c enc h w]
+  obtain ⟨e, he, _, hf⟩ := field_of_valid (hfield_valid f c)
+  have := (ehdr_table_ok c).2 e he
+  rw [(sizes_eq c).1] at hl
+  apply wr_wr_same
+  · rw [encodeInt_length, hf]; omega
+  · rw [encodeInt_length, encodeInt_length]
+
 private theorem bv_eq_of {n} {x y : BitVec n} {a b : Nat} (hx : x.toNat = a) (hy : y.toNat = b) (h : a = b) :
     x = y := BitVec.eq_of_toNat_eq (by rw [hx, hy, h])
 
